@@ -334,3 +334,11 @@ def dom_hidden_path(m):
     """Paths with some segment starting with `.`"""
     anyc = s_cls(m.full)
     return s_alt(s_cat(s_chr('.'), S_ALL), s_cat(s_star(anyc), m.SEP, s_chr('.'), S_ALL))
+
+
+def dom_dotdir_segment(m):
+    """Paths with a segment that is exactly `.` or `..` (their matching is C03's business)."""
+    anyc = s_cls(m.full)
+    d = dots(m)
+    end = s_alt(S1, s_cat(m.SEP, S_ALL))
+    return s_alt(s_cat(d, end), s_cat(s_star(anyc), m.SEP, d, end))
